@@ -186,6 +186,7 @@ pub fn c04(tier: &str, seed: u64) -> Check {
     }
     spaces.push(crate::props::fam::c04_c06_family("bfs", thorough));
     spaces.push(crate::props::large::trav_big("bfs", thorough));
+    spaces.push(crate::props::huge::space("C04"));
     let report = super::report(
         "C04",
         tier,
@@ -366,6 +367,7 @@ pub fn c06(tier: &str, seed: u64) -> Check {
     }
     spaces.push(crate::props::fam::c04_c06_family("dfs", thorough));
     spaces.push(crate::props::large::trav_big("dfs", thorough));
+    spaces.push(crate::props::huge::space("C06"));
     let report = super::report(
         "C06",
         tier,
@@ -474,6 +476,7 @@ pub fn c09(tier: &str, seed: u64) -> Check {
     spaces.push(c09_sparse(&[1, 4, 6], 3));
     spaces.push(crate::props::fam::c09_family(thorough));
     spaces.push(crate::props::large::trav_big("tarjan", thorough));
+    spaces.push(crate::props::huge::space("C09"));
     let report = super::report(
         "C09",
         tier,
